@@ -107,7 +107,22 @@ func c13Scalar(label string, class int) Value {
 		vrt.Assume(err == nil)
 		return ip
 	default:
-		return String("plain")
+		// an address with a symbolic prefix length (every length of both families)
+		fam := vrt.Choice(label+".ip-family", 2)
+		n := 1 + vrt.Choice(label+".prefix-digits", 3)
+		if fam == 0 && n == 3 {
+			n = 2
+		}
+		d := vrt.Bytes(label+".prefix-len", n)
+		for i, c := range d {
+			vrt.Assume(vrt.And(c >= '0', c <= '9'))
+			if i == 0 && n > 1 {
+				vrt.Assume(c != '0')
+			}
+		}
+		ip, err := ParseIPAddr([]string{"10.1.2.3/", "2001:db8::1/"}[fam] + string(d))
+		vrt.Assume(err == nil)
+		return ip
 	}
 }
 
@@ -409,6 +424,45 @@ func VerifC13_EntityMapRoundTrip() {
 		vrt.Assert("C13.entitymap.encodes-again", err == nil)
 		vrt.Assert("C13.entitymap.stable", vrt.EqBytes(b1, b2))
 	}
+}
+
+// Entity maps over arbitrary short UIDs: type and id are symbolic strings over an
+// alphabet that contains the separators the encoders use (`::`, quotes), so any
+// two distinct UIDs must stay distinct entities through the JSON round trip.
+func VerifC13_EntityMapUIDs() {
+	maxLen := 1
+	if vrt.Thorough() {
+		maxLen = 2
+	}
+	vrt.Bound("uid-type-and-id-length", maxLen)
+	mk := func(label string) EntityUID {
+		tl, il := vrt.Choice(label+".type-len", maxLen+1), vrt.Choice(label+".id-len", maxLen+1)
+		t, id := vrt.Bytes(label+".type", tl), vrt.Bytes(label+".id", il)
+		for _, c := range append(append([]byte{}, t...), id...) {
+			vrt.Assume(vrt.Or(vrt.Or(c == ':', c == 'a'), vrt.Or(c == '"', c == '\\')))
+		}
+		return NewEntityUID(EntityType(t), String(id))
+	}
+	u1, u2 := mk("u1"), mk("u2")
+	vrt.Assume(vrt.Not(vrt.And(vrt.EqString(string(u1.Type), string(u2.Type)), vrt.EqString(string(u1.ID), string(u2.ID)))))
+	m := EntityMap{
+		u1: Entity{UID: u1, Attributes: NewRecord(RecordMap{"n": Long(1)})},
+		u2: Entity{UID: u2, Parents: NewEntityUIDSet(u1), Attributes: NewRecord(RecordMap{"n": Long(2)})},
+	}
+	b1, err := json.Marshal(m)
+	vrt.Assert("C13.entitymap-uids.encodes", err == nil)
+	var back EntityMap
+	err = json.Unmarshal(b1, &back)
+	vrt.Cover("C13.entitymap-uids.roundtrip")
+	vrt.Assert("C13.entitymap-uids.decodes", err == nil)
+	vrt.Assert("C13.entitymap-uids.size", len(back) == 2)
+	g1, ok1 := back.Get(u1)
+	g2, ok2 := back.Get(u2)
+	vrt.Assert("C13.entitymap-uids.members", ok1 && ok2)
+	vrt.Assert("C13.entitymap-uids.member-equal", m[u1].Equal(g1) && m[u2].Equal(g2))
+	b2, err := json.Marshal(back)
+	vrt.Assert("C13.entitymap-uids.encodes-again", err == nil)
+	vrt.Assert("C13.entitymap-uids.stable", vrt.EqBytes(b1, b2))
 }
 
 // Requests.
